@@ -54,7 +54,7 @@ def base_step(genotype: A[i1, 2], reads: A[f8, 3], llk: float, h: int, j: int, n
     requires(forall(0, n_alleles, lambda a: not isninf(LLKU(reads, CN, genotype, h, j, a, P, N, len(reads)))))
     # C09: the carried likelihood is the likelihood of the current genotype
     requires(llk == LLK(reads, CN, genotype, P, N, len(reads)))
-    requires(implies(cache is not None, AMOK(cache) and cache[2] == P * N and cache[0].shape[1] >= reads.shape[2]))
+    requires(implies(cache is not None, AMOK(cache) and cache[2] == P * N and n_alleles <= cache[0].shape[1] and forall(0, P, lambda x: forall(0, N, lambda y: old(genotype)[x, y] < cache[0].shape[1]))))
     requires(implies(cache is not None, COH(cache, reads, CN, P, N, len(reads))))
     modifies(genotype, cache)
     # C09: ... and so is the returned one, for the updated genotype
@@ -76,7 +76,7 @@ def base_step(genotype: A[i1, 2], reads: A[f8, 3], llk: float, h: int, j: int, n
         invariant(0 <= genotype[h, j], genotype[h, j] < n_alleles)
         invariant(forall(0, i, lambda a: llks[a] == LLKU(reads, CN, old(genotype), h, j, a, P, N, len(reads))))
         invariant(forall(0, i, lambda a: not isnan(log_accept[a]) and implies(not isninf(log_accept[a]), log_accept[a] <= 0)))
-        invariant(implies(cache is not None, AMOK(cache) and cache[2] == P * N and cache[0].shape[1] >= reads.shape[2]))
+        invariant(implies(cache is not None, AMOK(cache) and cache[2] == P * N and n_alleles <= cache[0].shape[1] and forall(0, P, lambda x: forall(0, N, lambda y: old(genotype)[x, y] < cache[0].shape[1]))))
         invariant(implies(cache is not None, COH(cache, reads, CN, P, N, len(reads))))
         with head():
             unfold(LLKU(reads, CN, old(genotype), h, j, i, P, N, len(reads)))
@@ -122,7 +122,7 @@ def compound_step(genotype: A[i1, 2], reads: A[f8, 3], llk: float, n_alleles: A[
     requires(forall(lambda r, y, a: not isninf(reads[r, y, a]) and (isnan(reads[r, y, a]) or reads[r, y, a] >= 0)))
     requires(POSREADS(reads, CN, n_alleles, PP, NN, len(reads)))
     requires(llk == LLK(reads, CN, genotype, PP, NN, len(reads)))
-    requires(implies(cache is not None, AMOK(cache) and cache[2] == PP * NN and cache[0].shape[1] >= reads.shape[2]))
+    requires(implies(cache is not None, AMOK(cache) and cache[2] == PP * NN and forall(0, NN, lambda y: n_alleles[y] <= cache[0].shape[1])))
     requires(implies(cache is not None, COH(cache, reads, CN, PP, NN, len(reads))))
     modifies(genotype, cache)
     # C09: the returned likelihood is the likelihood of the genotype left behind by the sweep
@@ -149,7 +149,7 @@ def compound_step(genotype: A[i1, 2], reads: A[f8, 3], llk: float, n_alleles: A[
         invariant(forall(0, ploidy * n_base, lambda s: substeps[s, 0] == shuffle0(s) // n_base and substeps[s, 1] == shuffle0(s) % n_base))
         invariant(forall(0, ploidy * n_base, lambda s: 0 <= shuffle0(s) and shuffle0(s) < ploidy * n_base))
         invariant(llk == LLK(reads, CN, genotype, PP, NN, len(reads)), VALIDG(genotype, n_alleles, PP, NN))
-        invariant(implies(cache is not None, AMOK(cache) and cache[2] == PP * NN and cache[0].shape[1] >= reads.shape[2]))
+        invariant(implies(cache is not None, AMOK(cache) and cache[2] == PP * NN and forall(0, NN, lambda y: n_alleles[y] <= cache[0].shape[1])))
         invariant(implies(cache is not None, COH(cache, reads, CN, PP, NN, len(reads))))
         with head():
             lemma_divmod_range(shuffle0(i), n_base, ploidy)
